@@ -18,7 +18,7 @@ def early_returns(f: FuncInfo) -> list[tuple[ast.If, str]]:
     return out
 
 
-def classify_guard(test: ast.expr, action_param: str | None) -> str:
+def classify_guard(test: ast.expr, action_param: str | None, f: FuncInfo | None = None) -> str:
     """type-filter | no-segmentation | feature-gate | nothing-active | other"""
     txt = norm(test)
     if action_param and "isinstance(" in txt and action_param in txt and not any(
@@ -27,8 +27,14 @@ def classify_guard(test: ast.expr, action_param: str | None) -> str:
         return "type-filter"
     if txt in ("self.tracks.segmentation is None",):
         return "no-segmentation"
-    if isinstance(test, ast.Compare) and len(test.ops) == 1 and isinstance(test.ops[0], ast.NotIn) and norm(test.comparators[0]) in ("self.features", "self.features.keys()"):
-        return "feature-gate"
+    if isinstance(test, ast.Compare) and len(test.ops) == 1 and isinstance(test.ops[0], ast.NotIn):
+        comp = test.comparators[0]
+        if norm(comp) in ("self.features", "self.features.keys()"):
+            return "feature-gate"
+        if isinstance(comp, ast.Name) and f is not None:
+            defs = [s for s in ast.walk(f.node) if isinstance(s, ast.Assign) and any(isinstance(t, ast.Name) and t.id == comp.id for t in s.targets)]
+            if defs and all(norm(d.value) in ("self.features", "self.features.keys()", "list(self.features.keys())", "self._filter_feature_keys(None)") for d in defs):
+                return "feature-gate"
     if isinstance(test, ast.UnaryOp) and isinstance(test.op, ast.Not) and isinstance(test.operand, ast.Name):
         return "nothing-active"
     return "other"
@@ -44,7 +50,7 @@ def update_guards(P: Program, R, a: ClassInfo, rule: str) -> None:
     action = upd.params[1] if len(upd.params) > 1 else None
     # `not keys` style guards must test a list derived from the active features
     for node, txt in early_returns(upd):
-        kind = classify_guard(node.test, action)
+        kind = classify_guard(node.test, action, upd)
         if kind == "nothing-active":
             nm = node.test.operand.id
             defs = [s for s in ast.walk(upd.node) if isinstance(s, ast.Assign) and any(isinstance(t, ast.Name) and t.id == nm for t in s.targets)]
